@@ -109,6 +109,12 @@ Theorem C14_shape :
   binding_checks = ["blank_key"; "no_admin_key"; "primary_db"] /\
   api_keys_writers = ["store_api_key"] /\
   forallb (fun c => snd c) store_api_key_callers = true /\
+  (* persistence: the whole map / registry is written on every change, nothing returns ahead of the write,
+     and a restart loads exactly those two extensions *)
+  persist_keys_steps = ["snapshot"; "primary_lookup"; "save_extension"; "propagate_error"; "ok"] /\
+  persist_registry_steps = ["snapshot"; "primary_lookup"; "save_extension"; "propagate_error"; "ok"] /\
+  store_api_key_steps = ["update_map"; "persist"; "rollback_and_fail"] /\
+  connect_loads = ["registry_from_extension"; "keys_from_extension"; "keys_without_admin_refused"; "keys_into_state"; "reopen_registered"] /\
   unauthorized_wire = ("UNAUTHORIZED", "unauthorized", "invalid or missing API key").
 Proof. repeat split; reflexivity. Qed.
 Print Assumptions C14_shape.
@@ -161,9 +167,26 @@ Print Assumptions C14_removal_revokes.
 Theorem C14_lifecycle_keeps_bindings :
   forall (hash : Type) (hash_of : string -> hash) (st : sstate hash) (o : op),
     (match o with OClose _ | OOpen _ | OConnect _ | ORestart | OCreate _ None => True | _ => False end) ->
+    s_pkeys st = s_keys st ->
     s_keys (fst (apply_op hash_of st o)) = s_keys st /\ s_admin (fst (apply_op hash_of st o)) = s_admin st.
 Proof. intros hash hash_of. exact (lifecycle_keeps_bindings hash_of). Qed.
 Print Assumptions C14_lifecycle_keeps_bindings.
+
+(* revocation and rotation are durable: the old key is still an outsider after a restart over the same store *)
+Theorem C14_revocation_survives_restart :
+  forall (hash : Type) (hash_of : string -> hash) (verify : hash -> string -> bool),
+    (forall k k', verify (hash_of k) k' = String.eqb k k') ->
+    forall (st : sstate hash) ka n k1 r,
+      st.(s_admin) = Some (hash_of ka) -> k1 <> ka -> bearer_token GT r = Some k1 -> r.(r_verb) = POST -> r.(r_path) = [n] -> n <> "" ->
+      (snd (remove_db_api_key st n) = OpOk -> handle verify GT (restart (fst (remove_db_api_key st n))) r = RUnauthorized) /\
+      (forall k2, k1 <> k2 -> snd (set_db_api_key hash_of st n k2) = OpOk ->
+                  handle verify GT (restart (fst (set_db_api_key hash_of st n k2))) r = RUnauthorized).
+Proof.
+  intros hash hash_of verify Hv st ka n k1 r Ha N1a Tok V P Ne. split.
+  - intros Ok. exact (removal_survives_restart hash_of verify Hv GT (gen_rules_ok hash verify) st ka n k1 r Ha Ok N1a Tok V P Ne).
+  - intros k2 N12 Ok. exact (rotation_survives_restart hash_of verify Hv GT (gen_rules_ok hash verify) st ka n k1 k2 r Ha Ok N12 N1a Tok V P Ne).
+Qed.
+Print Assumptions C14_revocation_survives_restart.
 
 (* ---- non-vacuity: a concrete two-tenant state after a real history, with the identity hash ---- *)
 Definition ex_history : list op :=
